@@ -79,9 +79,9 @@ PLAN = {
     "C12": [FRAME_PLAN],
     "C18": [FRAME_PLAN, ("MC_Bytes", {"quick": SDES_Q, "thorough": SDES_T}, {"quick": 5000, "thorough": 100000})],
     "C10": [("MC_Bytes", {"quick": SDES_Q, "thorough": SDES_T}, {}), ("MC_Bytes", {"thorough": SDES_T2}, {})],
-    "C02": [("MC_Writer", {"quick": W('{"sr", "rr"}', 2), "thorough": W('{"sr", "rr"}', 3, wrap=True)}, {})],
+    "C02": [("MC_Writer", {"quick": W('{"sr", "rr"}', 2, inter=True), "thorough": W('{"sr", "rr"}', 3, wrap=True, inter=True)}, {})],
     "C03": [("MC_Writer", {"quick": W('{"sdes"}', 2, fam=True, inter=True), "thorough": W('{"sdes"}', 3, fam=True, wrap=True, inter=True)}, {})],
-    "C04": [("MC_Writer", {"quick": W('{"bye", "app"}', 2), "thorough": W('{"bye", "app"}', 3, wrap=True)}, {})],
+    "C04": [("MC_Writer", {"quick": W('{"bye", "app"}', 2, inter=True), "thorough": W('{"bye", "app"}', 3, wrap=True, inter=True)}, {})],
     "C05": [("MC_Writer", {"quick": W('{"tfb", "pfb"}', 1, fam=True, inter=True), "thorough": W('{"tfb", "pfb"}', 2, fam=True, wrap=True, inter=True)}, {})],
     "C06": [("MC_Writer", {"quick": W(ALL_KINDS, 2, wrap=True, inter=True), "thorough": W(ALL_KINDS, 3, fam=True, wrap=True, inter=True)}, {"quick": 4000, "thorough": 60000})],
     "C07": [("MC_Writer", {"quick": W(ALL_KINDS, 2, wrap=True, inter=True), "thorough": W(ALL_KINDS, 3, fam=True, wrap=True, inter=True)}, {"quick": 4000, "thorough": 60000})],
@@ -89,8 +89,8 @@ PLAN = {
                            "thorough": W('{"sr", "rr", "sdes", "bye", "app", "tfb", "pfb"}', 2, fam=True, pad=True)}, {"quick": 3000})],
     "C14": [("MC_Writer", {"quick": W('{"compound"}', 3, wrap=True, inter=True), "thorough": W('{"compound"}', 4, wrap=True, inter=True)}, {})],
     "C16": [("MC_Writer", {"quick": W(ALL_KINDS, 2, inter=True), "thorough": W(ALL_KINDS, 3, fam=True, inter=True)}, {"quick": 4000, "thorough": 60000})],
-    "C17": [("MC_Writer", {"quick": W(ALL_KINDS, 2, wrap=True), "thorough": W(ALL_KINDS, 3, fam=True, wrap=True)}, {"quick": 4000, "thorough": 60000})],
-    "C19": [FRAME_PLAN, ("MC_Writer", {"quick": W('{"unk", "custom"}', 3, wrap=True), "thorough": W('{"unk", "custom"}', 4, wrap=True)}, {})],
+    "C17": [("MC_Writer", {"quick": W(ALL_KINDS, 2, wrap=True, inter=True), "thorough": W(ALL_KINDS, 3, fam=True, wrap=True, inter=True)}, {"quick": 4000, "thorough": 60000})],
+    "C19": [FRAME_PLAN, ("MC_Writer", {"quick": W('{"unk", "custom"}', 3, wrap=True, inter=True), "thorough": W('{"unk", "custom"}', 4, wrap=True, inter=True)}, {})],
     "C20": [("MC_Writer", {"quick": W(ALL_KINDS, 2, fam=True, wrap=True, inter=True), "thorough": W(ALL_KINDS, 3, fam=True, wrap=True, inter=True)}, {"quick": 5000, "thorough": 80000})],
     "C15": [("MC_Bytes", {"quick": FCI_Q, "thorough": FCI_T}, {"quick": 8000, "thorough": 200000}), ("MC_Nack", {"quick": {"MaxWords": 1, "MaxSecond": 1}, "thorough": {"MaxWords": 2, "MaxSecond": 1}}, {"quick": None, "thorough": 20000})],
     "C11": [("MC_Compound", {"quick": {"MaxTiles": 2, "Extra": 3}, "thorough": {"MaxTiles": 3, "Extra": 3}}, {})],
